@@ -251,6 +251,50 @@ def truncating(prog, b, key, rep, name, site, writes):
     rep.check(not bad, 'W5', f'{name}:no-append-rename-seek', 'no append / rename; no seek or set_len other than a manual truncation to 0', f"{name} uses {[c['callee'] for c in bad][:2]} — repositioning inside or appending to the previous file keeps part of its content", site)
 
 
+def _is_read_call(x):
+    x = vt.unvar(x)
+    return isinstance(x, dict) and x.get('k') == 'call' and str(x.get('f', '')).replace(' ', '').endswith(('fs::read', 'read_to_string', 'read_to_end'))
+
+
+def closed_comparison(v):
+    """`<read>.is_ok_and(|old| old == X)`, `<read>.map_or(false, |old| old == X)`, `<read>.map(|old| old == X).unwrap_or(false)`,
+    `<read>.ok().is_some_and(..)`, `matches!(<read>, Ok(old) if old == X)`: true exactly when the file could be read and its bytes
+    equal X.  Returns X (the value compared with the old bytes) or None."""
+    v = vt.unvar(v)
+    if not isinstance(v, dict):
+        return None
+
+    def eq_other(body, elem_of):
+        b = vt.unvar(body.get('body') if body.get('k') == 'closure' else body)
+        if isinstance(b, dict) and b.get('k') == 'op' and b.get('op') == '==' and len(b.get('args', [])) == 2:
+            sides = [vt.strip(a_) for a_ in b['args']]
+            old = [i for i, a_ in enumerate(sides) if isinstance(vt.unvar(a_), dict) and vt.unvar(a_).get('k') in ('elem', 'payload') and _is_read_call(_peel_ok(vt.unvar(a_).get('of')))]
+            if len(old) == 1:
+                return b['args'][1 - old[0]]
+        return None
+    if v.get('k') == 'call' and v.get('f') in ('is_ok_and', 'is_some_and') and v.get('args') and _is_read_call(_peel_ok(v.get('recv'))):
+        return eq_other(vt.unvar(v['args'][0]), v.get('recv'))
+    if v.get('k') == 'call' and v.get('f') == 'map_or' and len(v.get('args', [])) == 2 and _is_read_call(_peel_ok(v.get('recv'))):
+        d0 = vt.strip(v['args'][0])
+        if isinstance(d0, dict) and d0.get('k') == 'lit' and d0.get('v') is False:
+            return eq_other(vt.unvar(v['args'][1]), v.get('recv'))
+    if v.get('k') == 'call' and v.get('f') in ('unwrap_or', 'unwrap_or_default') and isinstance(vt.unvar(v.get('recv')), dict):
+        r = vt.unvar(v['recv'])
+        d0 = vt.strip(v['args'][0]) if v.get('args') else {'k': 'lit', 'v': False}
+        if r.get('k') == 'call' and r.get('f') == 'map' and r.get('args') and _is_read_call(_peel_ok(r.get('recv'))) and isinstance(d0, dict) and d0.get('v') is False:
+            return eq_other(vt.unvar(r['args'][0]), r.get('recv'))
+    if v.get('k') == 'matches' and _is_read_call(v.get('scrut')) and 'Ok' in ''.join(v.get('variants', [])) and v.get('guard') is not None:
+        return eq_other(v['guard'], v.get('scrut'))
+    return None
+
+
+def _peel_ok(x):
+    x = vt.unvar(x)
+    while isinstance(x, dict) and x.get('k') == 'call' and x.get('f') in ('ok', 'as_ref', 'as_deref') and x.get('recv') is not None:
+        x = vt.unvar(x['recv'])
+    return x
+
+
 def cmp_helper_contract(ctx, hb):
     """A bool helper used as the compare step: with the read succeeding its value is `old == new` (new = a parameter),
     with the read failing it is false."""
@@ -260,6 +304,15 @@ def cmp_helper_contract(ctx, hb):
     from .. import inline
     h = ctx.x(cands[0])
     res = inline._result(h)
+    params0 = [p['name'] for p in cands[0]['params']]
+    other = closed_comparison(res)
+    if other is not None:
+        o = vt.strip(other)
+        while isinstance(o, dict) and o.get('k') in ('ref', 'deref', 'paren'):
+            o = vt.strip(o.get('v'))
+        if isinstance(o, dict) and o.get('k') == 'atom' and o.get('root') in params0:
+            return True, ''
+        return False, f'which compares the old bytes with `{vt.show(other)[:60]}`, not with its argument'
 
     def is_read(x):
         x = vt.unvar(x)
@@ -293,6 +346,8 @@ def compared_and_written(ctx, f):
             y = vt.strip(x)
             if isinstance(y, dict) and y.get('k') == 'op' and y.get('op') == '==':
                 cmp_v = show_bytes(y['args'][1])
+            elif isinstance(y, dict) and closed_comparison(y) is not None:
+                cmp_v = show_bytes(closed_comparison(y))
             elif isinstance(y, dict):
                 # the comparison sits inside the (inlined) condition: old bytes = payload of the whole-file read
                 for z in vt.walk(y):
